@@ -42,6 +42,10 @@ pub struct Case {
     pub off: u8,
     /// SX126x command status 0..7 ; SX127x: 0 = done, 1 = CRC error
     pub status: u8,
+    /// SX126x, continuous reception: the status is reported by GetPacketStatus only (the payload has been copied by
+    /// then) and a second packet of this length arrives next
+    #[serde(default)]
+    pub second: Option<u8>,
 }
 
 fn chip_byte(i: usize) -> u8 {
@@ -116,7 +120,7 @@ fn prepare(s: &mut Session) -> Result<(), String> {
 }
 
 /// Runs one reception on a prepared session. Returns violations and whether a packet was returned.
-fn run_one(s: &mut Session, len: u8, off: u8, status: u8) -> (Vec<(String, String)>, bool) {
+fn run_one(s: &mut Session, len: u8, off: u8, status: u8, second: Option<u8>) -> (Vec<(String, String)>, bool) {
     let is126 = s.g.chip == "sx1262";
     // script the chip
     if is126 {
@@ -124,6 +128,8 @@ fn run_one(s: &mut Session, len: u8, off: u8, status: u8) -> (Vec<(String, Strin
             c.rx_len = len;
             c.rx_off = off;
             c.cmd_status = status;
+            c.status_only_op = second.map(|_| 0x14);
+            c.rx_len_next = second;
             c.outcome = Outcome::Done;
             c.irq = 0;
             for i in 0..256 {
@@ -145,6 +151,10 @@ fn run_one(s: &mut Session, len: u8, off: u8, status: u8) -> (Vec<(String, Strin
     let n = s.g.buf;
     let path = s.g.path.clone();
     let pp = s.pp.take();
+    {
+        let mut g = s.env.0.borrow_mut();
+        g.budget_end = Some(g.pos + 4000);
+    }
     let res: Result<Result<(usize, bool), String>, String> = catch(|| {
         let buf = &mut backing[4..4 + n];
         macro_rules! direct {
@@ -197,15 +207,28 @@ fn run_one(s: &mut Session, len: u8, off: u8, status: u8) -> (Vec<(String, Strin
         }
     });
     s.pp = pp;
+    s.env.0.borrow_mut().budget_end = None;
+    if is126 {
+        s.env.with_chip::<Sx126xChip, _>(|c| {
+            c.status_only_op = None;
+            c.rx_len_next = None;
+        });
+    }
     let tag = format!("{}|{}|{}", s.g.chip, s.g.path, if s.g.implicit.is_some() { "implicit" } else { "explicit" });
     let mut v = vec![];
     let mut got = false;
     match res {
+        Err(p) if p.contains("does not return") => v.push((format!("C18|{tag}|fetch-does-not-return"), format!("len {len} off {off} status {status} second {second:?} buffer {n}: more than 4000 environment calls without returning a packet or an error"))),
         Err(p) => v.push((format!("C18|{tag}|panic|{}", panic_site(&p)), format!("len {len} off {off} status {status} buffer {n}: {p}"))),
         Ok(Err(_e)) => {}
         Ok(Ok((l, _))) => {
             got = true;
-            // the length the chip's state defines
+            // the length the chip's state defines (whether a packet may be returned despite an error status is not
+            // part of the property: with a second packet either one may come back, complete and alone)
+            let len = match second {
+                Some(l2) if l == l2 as usize => l2,
+                _ => len,
+            };
             let want = match s.g.implicit {
                 None => len as usize,
                 Some(cfg) => {
@@ -341,7 +364,7 @@ fn eval_retry(c: &RetryCase) -> (Vec<(String, String)>, usize) {
 pub fn eval(c: &Case) -> Vec<(String, String)> {
     match build(&c.group) {
         Err(e) => vec![(format!("C18|{}|setup-failed", c.group.chip), e)],
-        Ok(mut s) => run_one(&mut s, c.len, c.off, c.status).0,
+        Ok(mut s) => run_one(&mut s, c.len, c.off, c.status, c.second).0,
     }
 }
 
@@ -441,7 +464,7 @@ pub fn run(tier: Tier, replay: Option<&str>) {
                     if !th && st > 1 && !(len % 16 == 0 || len > 250) {
                         continue;
                     }
-                    let (v, got) = run_one(&mut sess, len, off, st);
+                    let (v, got) = run_one(&mut sess, len, off, st, None);
                     if got {
                         returned.fetch_add(1, Ordering::Relaxed);
                     } else {
@@ -455,9 +478,35 @@ pub fn run(tier: Tier, replay: Option<&str>) {
                         }
                     }
                     for (sig, what) in v {
-                        ctx.violation(sig, what, serde_json::to_value(Case { group: g.clone(), len, off, status: st }).unwrap(), len as usize);
+                        ctx.violation(sig, what, serde_json::to_value(Case { group: g.clone(), len, off, status: st, second: None }).unwrap(), len as usize);
                     }
                     n += 1;
+                }
+            }
+        }
+        // continuous reception, SX126x: the error status comes with GetPacketStatus only (the payload of the first packet
+        // is in the caller's buffer by then), and a second, shorter / equal / longer packet arrives next
+        if g.chip == "sx1262" && g.continuous {
+            for len in (0..=255u8).filter(|l| th || l % 8 == 0 || *l > 250) {
+                for st in [3u8, 4, 5] {
+                    for l2 in [0u8, 1, len / 2, len.saturating_sub(1), len, len.saturating_add(1)] {
+                        let (v, got) = run_one(&mut sess, len, 0, st, Some(l2));
+                        if got {
+                            returned.fetch_add(1, Ordering::Relaxed);
+                        } else {
+                            refused.fetch_add(1, Ordering::Relaxed);
+                            if prepare(&mut sess).is_err() {
+                                match build(g) {
+                                    Ok(s) => sess = s,
+                                    Err(_) => return,
+                                }
+                            }
+                        }
+                        for (sig, what) in v {
+                            ctx.violation(sig, what, serde_json::to_value(Case { group: g.clone(), len, off: 0, status: st, second: Some(l2) }).unwrap(), len as usize + 1);
+                        }
+                        n += 1;
+                    }
                 }
             }
         }
@@ -500,10 +549,10 @@ pub fn run(tier: Tier, replay: Option<&str>) {
         "device_level_cases": device_cases,
         "retry_after_fault_cases": retry_cases,
         "distinct_nontrivial": returned.load(Ordering::Relaxed),
-        "rule": "chip model (SX1262, SX1276, SX1272) reports every length 0..=255 x offset (all 256 in thorough) x status (SX126x: all 8 command-status values; SX127x: done / CRC error) after a reception; the real driver fetches the packet through LoRa::rx (single and continuous), LoRa::get_rx_result and LorawanRadio::rx_single / rx_continuous into caller buffers of 0, 1, 12, 64, 255, 256 bytes embedded in canaries, in explicit-header mode (configured maximum 255, and 0 / 16 / 64 below what the chip reports) and in implicit-header mode with configured lengths 0, 1, 12, 255; chip buffer holds position-dependent bytes; a fetch (get_rx_result, continuous reception) with an SPI fault at each of its transactions followed by a retry; plus the device level (see assumptions). non-trivial = cases in which a packet was returned (and compared byte for byte)",
+        "rule": "chip model (SX1262, SX1276, SX1272) reports every length 0..=255 x offset (all 256 in thorough) x status (SX126x: all 8 command-status values; SX127x: done / CRC error) after a reception; the real driver fetches the packet through LoRa::rx (single and continuous), LoRa::get_rx_result and LorawanRadio::rx_single / rx_continuous into caller buffers of 0, 1, 12, 64, 255, 256 bytes embedded in canaries, in explicit-header mode (configured maximum 255, and 0 / 16 / 64 below what the chip reports) and in implicit-header mode with configured lengths 0, 1, 12, 255; chip buffer holds position-dependent bytes; SX126x continuous reception with an error status on GetPacketStatus only followed by a second packet of length 0 / 1 / half / one less / equal / one more; a fetch that consumes more than 4000 environment calls without returning counts as not returning; a fetch (get_rx_result, continuous reception) with an SPI fault at each of its transactions followed by a retry; plus the device level (see assumptions). non-trivial = cases in which a packet was returned (and compared byte for byte)",
         "samples": [
-            serde_json::to_value(Case { group: groups[0].clone(), len: 13, off: 250, status: 2 }).unwrap(),
-            serde_json::to_value(Case { group: groups[groups.len() - 1].clone(), len: 255, off: 1, status: 0 }).unwrap(),
+            serde_json::to_value(Case { group: groups[0].clone(), len: 13, off: 250, status: 2, second: None }).unwrap(),
+            serde_json::to_value(Case { group: groups[groups.len() - 1].clone(), len: 255, off: 1, status: 0, second: None }).unwrap(),
         ],
         "exhaustive": true,
         "packets_returned": returned.load(Ordering::Relaxed),
